@@ -1289,5 +1289,68 @@ def rule_i(ctx):
             not bad, '; '.join(bad) if bad else 'all %d calls pass <transport>.requires_length_header()' % n_calls)
 
 
+
+def rule_cache_entries_leave_when_done(ctx):
+    """C03.j  A partial frame leaves the reassembly cache for two reasons only: its last fragment arrived (append pops the
+    entry of the very stream it was called for and returns the frame), or its stream ended (remove(stream_id) pops the
+    id it is given).  The sender interleaves one fragment per queued frame, so any number of partial frames can be
+    legitimately in progress at once: an eviction by age or count (`popitem`, `clear`, a pop under another key)
+    truncates a payload that is still being received, or loses the head of a request."""
+    rep = ctx.report
+    cache = ctx.repo.cls('rsocket.frame_fragment_cache:FrameFragmentCache')
+    if cache is None:
+        raise AnalysisError('C03.j: FrameFragmentCache vanished')
+    store = None
+    for n in walk_local(cache.methods['__init__'].node):
+        t = n.targets[0] if isinstance(n, ast.Assign) else n.target if isinstance(n, ast.AnnAssign) else None
+        if isinstance(t, ast.Attribute) and isinstance(getattr(n, 'value', None), (ast.Dict, ast.Call)):
+            store = t.attr
+    if store is None:
+        raise AnalysisError('C03.j: the cache keeps its partial frames nowhere')
+    n_rm = 0
+    bad = []
+    for name, f in cache.methods.items():
+        params = [p for p in f.params() if p != 'self']
+        for x in walk_local(f.node):
+            key = None
+            what = None
+            if isinstance(x, ast.Call) and isinstance(x.func, ast.Attribute) and \
+                    isinstance(x.func.value, ast.Attribute) and x.func.value.attr == store and \
+                    x.func.attr in ('pop', 'popitem', 'clear'):
+                what = x.func.attr
+                key = x.args[0] if x.args else None
+            elif isinstance(x, ast.Delete):
+                for t in x.targets:
+                    if isinstance(t, ast.Subscript) and isinstance(t.value, ast.Attribute) and t.value.attr == store:
+                        what, key = 'del', t.slice
+                    elif isinstance(t, ast.Attribute) and t.attr == store:
+                        what, key = 'del-all', None
+            elif isinstance(x, ast.Assign) and any(isinstance(t, ast.Attribute) and t.attr == store
+                                                    for t in x.targets) and name != '__init__':
+                what, key = 'replaced', None
+            if what is None:
+                continue
+            n_rm += 1
+            ok = False
+            if what in ('pop', 'del') and key is not None:
+                kt = ast.unparse(key)
+                if name == 'remove' and kt in params:
+                    ok = True
+                if name in ('append',) and params and kt == '%s.stream_id' % params[0]:
+                    ok = True
+            if not ok:
+                bad.append((f, '%s.%s: %s%s' % (cache.name, name, what, '(%s)' % ast.unparse(key) if key is not None
+                                                else '')))
+    for f, txt in bad:
+        rep.bad('C03.j', '%s / removes an entry that is neither complete nor of a finished stream' % txt, f,
+                'a partial frame is dropped from the reassembly cache for a reason other than its last fragment or the '
+                'end of its stream: a frame still being received is truncated or loses its head')
+    rep.require('C03.j', 'removals from the reassembly cache', n_rm, 2)
+    if not bad:
+        rep.ok('C03.j', 'reassembly cache / entries leave on their last fragment or with their stream',
+               cache.methods['append'], '%d removals: append pops frame.stream_id, remove pops the id given' % n_rm)
+
+
+
 RULES = [('C03.a', rule_a), ('C03.b', rule_b), ('C03.c', rule_c), ('C03.d', rule_d), ('C03.e', rule_e),
-         ('C03.f', rule_f), ('C03.g', rule_g), ('C03.h', rule_h), ('C03.i', rule_i), ('C03.c', rule_predicate_is_the_mixin)]
+         ('C03.f', rule_f), ('C03.g', rule_g), ('C03.h', rule_h), ('C03.i', rule_i), ('C03.c', rule_predicate_is_the_mixin), ('C03.j', rule_cache_entries_leave_when_done)]
